@@ -1,4 +1,5 @@
 import AkVerif.Model.Murmur
+import AkVerif.Model.MurmurSrcRun
 import AkVerif.Model.Assign
 import AkVerif.Model.Iso
 import AkVerif.Model.Sticky
@@ -26,6 +27,7 @@ open AkVerif
 def dispatch (toks : List String) : Option String :=
   match toks with
   | "c17" :: rest => Murmur.handle rest
+  | "c17s" :: rest => Murmur.handleSrc rest
   | "c14" :: rest => Assign.handle rest
   | "c15" :: rest => Sticky.handle rest
   | "sticky" :: rest => StickyAlg.handle rest
